@@ -1,6 +1,7 @@
 SPECIFICATION Spec
 CONSTANTS
   FamilySet = {"*"}
+  PairMode = "listed"
 INVARIANT EveryAltCovered
 ACTION_CONSTRAINT Emit
 CHECK_DEADLOCK FALSE
